@@ -28,7 +28,7 @@ import props
 import pyleg
 
 KIND = "c16"
-N_CASES = {"quick": 800, "thorough": 8000}
+N_CASES = {"quick": 800, "thorough": 24000}
 
 CHROM_POOL = ["chr1", "chr10", "chr2", "chrX", "chrM", "a", "Z", "chr1_gl000191_random", "chrUn", "1", "MT", "chr22"]
 UTF8_CHROMS = ["chrΩ", "染色体7", "chréé"]
